@@ -141,4 +141,16 @@ CHECKS = {
              'source -> TypeError. User block names starting with an underscore must be refused; internal events carry '
              'the sender name.',
         note='Termination by shutdown(), abort(), failing handler, and the abort/shutdown control events.'),
+    'C15': dict(
+        level='exploration', design_ref='DESIGN.md 4/C15',
+        technique=PBT + '; own name resolver + biconditional wiring invariants over all block pairs; negative cases with exactly one invalid element',
+        text='Generated connection specifications (positional inputs, named singles, groups of size 0-3 with repeats; '
+             'object / name / _not_ shortcut / Const / bare constant; Events and IfOutput / NotIfInitialized / '
+             'DataEdit.add_output by name and by object), finalised explicitly or at start: every input must resolve to '
+             'the expected object, each inverter exists once and is wired to its source, B in A.oconnections <=> A in '
+             'B.iconnections <=> A feeds an input of B for all pairs, get_conf() and input_signature() agree, Event.dest '
+             'and filter control blocks are the blocks of that name (also checked functionally while running), and the '
+             'finalised circuit refuses new blocks, connect() and set_persistent_data(). 21 classes of invalid '
+             'references must fail at construction, in finalize() or at start.',
+        note='Cyclic wiring is generated only through constant-output probe blocks (it must still start).'),
 }
